@@ -406,6 +406,9 @@ def run(cx):
             if not info.ok:
                 inst.violation(b.path, "loop:" + info.desc[:90], "the bisection loop has no recognised termination variant: %s" % (info.why or "unbounded `loop`"), at=info.at)
     inst_time_units(cx, "C14.j")
+    from props.shared import ctor_initial_state, nofeedback_timer_writers
+    ctor_initial_state(cx, "C14.k")
+    nofeedback_timer_writers(cx, "C14.l")
 
 
 SELFTEST = [
